@@ -19,8 +19,8 @@
    NaN: the encoder replaces every NaN by the canonical quiet NaN
    (7fc00000 / 7ff8000000000000); all other floats are carried bit-exactly
    ([C09_float_exact]). *)
-From Verif Require Import Base.
-From Verif Require Base.GoSem Proofs.SrcCborP.Prelude Base.CborSpec Proofs.CborSpecP Enc.CborEnc Proofs.CborEncP.
+From Verif Require Base.GoSem Proofs.SrcCborP.
+From Verif Require Import Base.Prelude Base.CborSpec Proofs.CborSpecP Enc.CborEnc Proofs.CborEncP.
 Open Scope N_scope.
 
 (* ---- the reference parser is sound and complete for the specification ---- *)
